@@ -202,6 +202,26 @@ def r2_curl(chk: Check) -> None:
         tn = [n.id for n in g.live() if n.kind == "test" and n.ast is ifs[0].test]
         w = g.path([g.entry], rn, avoid=tn, edge_ok=lambda a, b, lbl: not lbl.startswith("exc:"))
         chk.decide(w is None, "C15.R2", prq, "the request is built after the sanitize branch", "the request can be built before sanitization", prq.loc(req[0]))
+    # headers that only come into being in `.prepare()`: requests derives `Authorization` from `auth=` and `Cookie` from
+    # `cookies=`; the serialized mapping carries both (`case._auth`, `case.cookies`), so the PREPARED headers have to be
+    # sanitized as well
+    prep = [c for c in body_calls(prq) if last_attr(c) == "prepare" and isinstance(c.func, ast.Attribute) and isinstance(c.func.value, ast.Call) and dotted(c.func.value.func) == "requests.Request"]
+    construct = "headers derived by requests' prepare() (Authorization from auth=, Cookie from cookies=) are sanitized too"
+    if not prep:
+        chk.undecided("C15.R2", prq, construct, "requests.Request(...).prepare() not found", prq.loc())
+    else:
+        st_ = stmt_of(prep[0])
+        if isinstance(st_, ast.Return):
+            chk.violation("C15.R2", prq, construct,
+                          "the prepared request is returned as it comes out of `.prepare()`: the `Authorization` header that requests builds from `case._auth` (e.g. set_from_requests(HTTPBasicAuth(...))) and the `Cookie` header built from `cookies=` are created AFTER the keyword arguments were sanitized, so `Authorization: Basic <base64 user:pass>` appears in the curl command on the console, in JUnit and in the pytest failure message",
+                          prq.loc(prep[0]))
+        elif isinstance(st_, ast.Assign) and len(st_.targets) == 1 and isinstance(st_.targets[0], ast.Name):
+            pv = st_.targets[0].id
+            san = [c for c in body_calls(prq) if last_attr(c) == "sanitize_value" and c.args and unparse(c.args[0]) == f"{pv}.headers"]
+            on_flag = [c for c in san if known_conditions(g, g.stmt_nodes_containing(c)).get("sanitize") is True]
+            chk.decide(True if on_flag else (False if not san else None), "C15.R2", prq, construct, "the prepared headers are not sanitized under the sanitize flag", prq.loc(prep[0]))
+        else:
+            chk.undecided("C15.R2", prq, construct, "use of the prepared request not recognised", prq.loc(prep[0]))
     # format_failures consumers use the curl code sample / sanitized config
     ff = P.func("core/failures.py:format_failures")
     chk.expect("curl" in params_of(ff.node), "C15.R2", ff, "format_failures prints the prepared code sample", "signature changed", ff.loc())
